@@ -33,8 +33,12 @@ GOALS = [
 
 
 def bounds(tier):
-    return tier_param(tier, {'depth': 4, 'state_cap_per_goal': 250, 'library_items': 'logic_base, logic (every prefix of the recorded steps)'},
-                      {'depth': 6, 'state_cap_per_goal': 3000, 'library_items': 'logic_base, logic, nat, set, function, list'})
+    # two menus per goal: 'wide' (every selection of <= 2 facts, cut / cases / introduction / new_var) to a smaller depth and
+    # 'narrow' (selections of <= 1 fact, cut and introduction only) one or two steps deeper
+    return tier_param(tier, {'depth': {'wide': 3, 'narrow': 4}, 'state_cap_per_goal': {'wide': 2500, 'narrow': 4000},
+                             'library_items': 'logic_base, logic (every prefix of the recorded steps)'},
+                      {'depth': {'wide': 4, 'narrow': 6}, 'state_cap_per_goal': {'wide': 6000, 'narrow': 8000},
+                       'library_items': 'logic_base, logic, nat, set, function, list'})
 
 
 class Harness:
@@ -87,7 +91,7 @@ class Harness:
         return out
 
     # ------------------------------------------------------------------ events
-    def events(self, state):
+    def events(self, state, profile='wide'):
         """enabled events: every suggestion of search_method for every gap and every selection of <=2 visible facts,
         plus parameterised operations with parameters from a menu derived from the state"""
         from kernel.proof import ItemID
@@ -95,7 +99,9 @@ class Harness:
         for gid_s, th in self.gaps(state):
             gid = ItemID(gid_s)
             facts = self.facts_before(state, gid)[-4:]
-            sels = [[]] + [[f] for f in facts] + [[f, g] for f in facts for g in facts if f != g]
+            sels = [[]] + [[f] for f in facts]
+            if profile == 'wide':
+                sels += [[f, g] for f in facts for g in facts if f != g]
             for sel in sels:
                 try:
                     res = state.search_method(gid_s, sel)
@@ -125,13 +131,47 @@ class Harness:
             # concrete histories are replayed separately by known_histories()).
             present = self.line_props(state)
             subs = [x for x in self.subformulas(th.prop) if x not in present]
-            for sub in subs[:3]:
+            hsubs = []
+            for hyp in th.hyps:
+                hsubs += [x for x in self.subformulas(hyp) if x not in present and x not in subs and x not in hsubs]
+            for sub in subs[:3] + hsubs[:2]:
                 evs.append(('param', {'method_name': 'cut', 'goal_id': gid_s, 'goal': sub}))
+            if profile == 'narrow':
+                evs.append(('param', {'method_name': 'introduction', 'goal_id': gid_s, 'names': 'x'}))
+                continue
             for sub in subs[:2]:
                 evs.append(('param', {'method_name': 'cases', 'goal_id': gid_s, 'case': sub}))
             for nm in ('x', 'x1'):
                 evs.append(('param', {'method_name': 'introduction', 'goal_id': gid_s, 'names': nm}))
             evs.append(('param', {'method_name': 'new_var', 'goal_id': gid_s, 'name': 'z', 'type': "'a"}))
+        # forward steps suggested for one gap are also tried at every other gap (the suggestion filter drops a forward step
+        # whose result is the goal itself; users can still ask for it)
+        from kernel.proof import ItemID as _ID
+        gids = [g for g, _ in self.gaps(state)]
+        seen_steps = {json.dumps(e[1], sort_keys=True) for e in evs if e[0] != 'search-raises'}
+        # the two projections of a visible conjunction can be asked for at every gap
+        for g in gids:
+            for f in self.facts_before(state, _ID(g))[-4:]:
+                try:
+                    is_conj = state.get_proof_item(_ID(f)).th.prop.is_conj()
+                except Exception:
+                    is_conj = False
+                if is_conj:
+                    for thname in ('conjD1', 'conjD2'):
+                        st = {'theorem': thname, 'method_name': 'apply_forward_step', 'goal_id': g, 'fact_ids': [f]}
+                        k = json.dumps(st, sort_keys=True)
+                        if k not in seen_steps:
+                            seen_steps.add(k)
+                            evs.append(('param', st))
+        for e in list(evs):
+            if e[0] == 'suggest' and e[1].get('method_name') == 'apply_forward_step':
+                for g in gids:
+                    if g != e[1]['goal_id']:
+                        st = dict(e[1], goal_id=g)
+                        k = json.dumps(st, sort_keys=True)
+                        if k not in seen_steps:
+                            seen_steps.add(k)
+                            evs.append(('param', st))
         return [e for e in evs if e is not None]
 
     def line_props(self, state):
@@ -166,6 +206,8 @@ class Harness:
             if x.is_comb():
                 rec(x.fun)
                 rec(x.arg)
+            elif x.is_abs():
+                rec(x.body)
         rec(t)
         return out
 
@@ -301,7 +343,7 @@ def viol(prop, kind, case, what):
     return Outcome(kind.upper(), violation={'signature': kind + ':' + json.dumps(case, default=str)[:1500], 'what': what})
 
 
-def explore_goal(h, goal, tier, agg, prop_id):
+def explore_goal(h, goal, tier, agg, prop_id, profile='wide'):
     """BFS from the initial state of one goal"""
     from kernel import theory
     from kernel.theory import ParameterQueryException
@@ -325,7 +367,7 @@ def explore_goal(h, goal, tier, agg, prop_id):
     def desc(hist):
         return [h.show_step(e[1]) if e[0] in ('suggest', 'suggest-filled', 'param') else list(e) for e in hist]
     depth = 0
-    while frontier and depth < b['depth']:
+    while frontier and depth < b['depth'][profile]:
         depth += 1
         nxt = []
         for hist in frontier:
@@ -336,7 +378,7 @@ def explore_goal(h, goal, tier, agg, prop_id):
                                                     'replaying the history %r on a fresh state fails with %s although it succeeded on copies' % (desc(hist), e)))
                 continue
             before = (h.canon(s))
-            for ev in h.events(s):
+            for ev in h.events(s, profile):
                 agg.transitions += 1
                 if ev[0] == 'search-raises':
                     if h.mode == 'C14':
@@ -385,8 +427,8 @@ def explore_goal(h, goal, tier, agg, prop_id):
                 if key in seen:
                     agg.add(None, Outcome('merged'))
                     continue
-                if len(seen) >= b['state_cap_per_goal']:
-                    agg.extra['cap_hit'] = 'state cap per goal reached'
+                if len(seen) >= b['state_cap_per_goal'][profile]:
+                    agg.extra.setdefault('cap_hit', {})['%s / %s' % (goal[2], profile)] = 'state cap reached at depth %d' % depth
                     agg.add(None, Outcome('beyond-cap'))
                     continue
                 seen[key] = hist + [ev]
@@ -482,10 +524,11 @@ def explore(tier, shard, nshards, agg, prop_id):
     from prover import z3wrapper
     z3wrapper.check_z3 = False
     h = Harness(prop_id)
-    for i, goal in enumerate(GOALS):
+    units = [(g, pr) for pr in ('narrow', 'wide') for g in GOALS]
+    for i, (goal, pr) in enumerate(units):
         if i % nshards != shard:
             continue
-        explore_goal(h, goal, tier, agg, prop_id)
+        explore_goal(h, goal, tier, agg, prop_id, pr)
     for i, (nm, it) in enumerate(library_items(tier)):
         if i % nshards != shard:
             continue
